@@ -23,23 +23,24 @@ Section Coop.
 Variable c : cfg.
 Variable B : list N.      (* the invoice of the set *)
 Variable Dl : N.          (* the amount it delivers *)
+Variable T : N.           (* the history ends by time T, less than one MPP timeout after it began *)
 Hypothesis mpp_pos : mpp_ms c <> 0.
 
 Definition good_htlc (h : htlc) : Prop :=
   blob h = B /\ deliver h = Dl /\ (rel h <? Z.of_N (pol_delta (pol c)))%Z = false /\ fee_sufficient (pol c) (total h) (deliver h) = true.
 
-Definition ev_coop (ev : event) : Prop :=
+Definition ev_coop (s : sys) (ev : event) : Prop :=
   match ev with
   | EvHtlc h => good_htlc h
   | EvProcess _ f => f = NoFault
   | EvPayFinish _ o => exists p, o = PayComplete p
-  | EvTick _ => False
+  | EvTick dt => now s + dt <= T
   | _ => True
   end.
 
 (* the interrupted attempt (a, t, g) as a recovering lifecycle knows it *)
 Definition krec (n : node) (na tnow a t g : N) : Prop :=
-  a < na /\ tnow - t < mpp_ms c /\ (ds n = Some (DPending a t, g) \/ exists pr, has_done pr (parts n)).
+  a < na /\ T - t < mpp_ms c /\ (ds n = Some (DPending a t, g) \/ exists pr, has_done pr (parts n)).
 
 Definition k_ok (n : node) (cs : list call) (na tnow : N) (p : pc) : Prop :=
   match p with
@@ -47,16 +48,17 @@ Definition k_ok (n : node) (cs : list call) (na tnow : N) (p : pc) : Prop :=
   | PWait (AfterRestart a g t) _ => krec n na tnow a t g
   | PWait (AfterPay _ _) _ => False
   | PMarkF1 k a g t => krec n na tnow a t g /\ forall y, st_of cs k = Some (Replied y) -> y = YUnit
-  | PMarkF2 k a g t => a < na /\ tnow - t < mpp_ms c /\
+  | PMarkF2 k a g t => a < na /\ T - t < mpp_ms c /\
        match st_of cs k with Some Unprocessed => ds n = Some (DPending a t, g) | Some (Replied y) => exists g', y = YGen g' | _ => True end
   | PAdd1 k a _ _ _ => a < na /\ mem_att a (atts n) = false /\ (forall y, st_of cs k = Some (Replied y) -> exists g, y = YGen g) /\
-       forall cl m gg a' t, nth_error cs k = Some cl -> c_rpc cl = QWriteState m gg (DPending a' t) -> tnow - t < mpp_ms c
+       forall cl m gg a' t, nth_error cs k = Some cl -> c_rpc cl = QWriteState m gg (DPending a' t) -> T - t < mpp_ms c
   | PAdd2 k a _ _ _ _ => a < na /\
        match st_of cs k with Some Unprocessed => mem_att a (atts n) = false | Some (Replied y) => y = YUnit | _ => True end
   | PPay k _ _ => forall y, st_of cs k = Some (Replied y) -> exists p, y = YPay (PayComplete p)
   | PMS1 _ _ pr => has_done pr (parts n)
   | PMFp1 _ _ _ | PMFp2 _ _ _ => False
-  | PSelect _ | PMS2 _ _ | PEnd | PPanicked => True
+  | PSelect d => T < d
+  | PMS2 _ _ | PEnd | PPanicked => True
   end.
 
 Definition clean_entry (e : option entry) : Prop :=
@@ -65,8 +67,9 @@ Definition clean_entry (e : option entry) : Prop :=
 Record K (s : sys) : Prop := {
   k_entry : clean_entry (entry_ (pl s));
   k_atts : forall a, mem_att a (atts (nd s)) = true -> a < next_att (pl s);
-  k_ds : forall a t g, ds (nd s) = Some (DPending a t, g) -> a < next_att (pl s) /\ now s - t < mpp_ms c;
-  k_lc : forall i x, nth_error (lcs (pl s)) i = Some x -> k_ok (nd s) (calls s) (next_att (pl s)) (now s) (l_pc x)
+  k_ds : forall a t g, ds (nd s) = Some (DPending a t, g) -> a < next_att (pl s) /\ T - t < mpp_ms c;
+  k_lc : forall i x, nth_error (lcs (pl s)) i = Some x -> k_ok (nd s) (calls s) (next_att (pl s)) (now s) (l_pc x);
+  k_now : now s <= T /\ T - now s < mpp_ms c
 }.
 
 (* ---------- frame lemmas ---------- *)
@@ -130,14 +133,16 @@ Qed.
 
 Lemma K_start n t0 h0 a0 :
   (forall a, mem_att a (atts n) = true -> a < a0) ->
-  (forall a t g, ds n = Some (DPending a t, g) -> a < a0 /\ t0 - t < mpp_ms c) ->
+  (forall a t g, ds n = Some (DPending a t, g) -> a < a0 /\ T - t < mpp_ms c) ->
+  t0 <= T -> T - t0 < mpp_ms c ->
   K (sys_start n t0 h0 a0).
 Proof.
-  intros Ha Hd. constructor; cbn [sys_start nd pl entry_ lcs calls next_att now].
+  intros Ha Hd Ht1 Ht2. constructor; cbn [sys_start nd pl entry_ lcs calls next_att now].
   - intros en H. discriminate.
   - exact Ha.
   - exact Hd.
   - intros [|i] x H; discriminate.
+  - split; assumption.
 Qed.
 
 (* ---------- EvHtlc ---------- *)
@@ -174,6 +179,7 @@ Proof.
         intros k Hk. apply nth_error_app1. exact (pc_calls_ok_awaits_lt c _ _ _ (Ht i x Hx) k Hk).
       * rewrite nth_error_app2 in Hx by exact Hge. destruct (i - length (lcs (pl s)))%nat as [|[|?]]; cbn in Hx; inversion Hx; subst x.
         cbn [l_pc k_ok]. intros a t g Hst. change (mk_calls [QListState]) with (mk_calls (QListState :: [])) in Hst. rewrite st_of_new0 in Hst. discriminate.
+    + exact (k_now s HK).
 Qed.
 
 (* ---------- installing one lifecycle step ---------- *)
@@ -207,6 +213,7 @@ Proof.
     + apply (k_ok_ext (nd s) (nd s) (calls s) tbl (next_att (pl s)) (a_att a)); auto.
       * exact (Other j y (not_eq_sym Hne) Hy').
       * exact (k_lc s HK j y Hy').
+  - exact (k_now s HK).
 Qed.
 
 (* the select! with a clean entry: it stays, or starts a payment with a fresh attempt id *)
@@ -231,19 +238,19 @@ Qed.
 
 (* ---------- the select! ---------- *)
 Lemma select_poll_k s li d sel cs' :
-  K s -> length cs' = length (calls s) ->
+  K s -> length cs' = length (calls s) -> T < d ->
   let a := select_poll c li (length (calls s)) (height s) (now s) d (entry_ (pl s)) sel (next_att (pl s)) in
   a_cancel a = [] /\ next_att (pl s) <= a_att a /\ clean_entry (a_entry a) /\
   k_ok (nd s) (cancel_calls (a_cancel a) cs' ++ mk_calls (a_new a)) (a_att a) (now s) (a_pc a) /\
   forall h r, ~ In (OResp h r) (a_out a).
 Proof.
-  intros HK Hlen. cbv zeta. destruct (entry_ (pl s)) as [en|] eqn:He.
+  intros HK Hlen HTd. pose proof (k_now s HK) as Hnow. cbv zeta. destruct (entry_ (pl s)) as [en|] eqn:He.
   2:{ unfold select_poll, stay. cbn [a_cancel a_att a_entry a_pc a_new a_out k_ok].
-      split; [reflexivity|]. split; [lia|]. split; [intros en0 H0; discriminate|]. split; [exact I|intros h r H0; exact H0]. }
+      split; [reflexivity|]. split; [lia|]. split; [intros en0 H0; discriminate|]. split; [exact HTd|intros h r H0; exact H0]. }
   destruct (k_entry s HK en He) as (E1 & E2 & E3 & E4).
   destruct (select_poll_clean_cases li (length (calls s)) (height s) (now s) d en sel (next_att (pl s)) E1) as [->|(am & mf & md & ->)].
   - unfold stay. cbn [a_cancel a_att a_entry a_pc a_new a_out k_ok].
-    split; [reflexivity|]. split; [lia|]. split; [rewrite <- He; exact (k_entry s HK)|]. split; [exact I|intros h r H0; exact H0].
+    split; [reflexivity|]. split; [lia|]. split; [rewrite <- He; exact (k_entry s HK)|]. split; [exact HTd|intros h r H0; exact H0].
   - cbn [a_cancel a_att a_entry a_pc a_new a_out]. split; [reflexivity|]. split; [lia|]. split.
     + apply clean_set_queues. rewrite <- He. exact (k_entry s HK).
     + split; [|intros h r H; exact H]. cbn [cancel_calls fold_left]. rewrite <- Hlen.
@@ -262,7 +269,8 @@ Proof.
   intros HC HK. cbn [step].
   destruct (find_select 0 (lcs (pl s))) as [[[i d] li]|] eqn:Hf; [|exact HK].
   destruct (find_select_spec _ _ _ _ _ Hf) as (x & Hx & Hp & Hli & _). rewrite Nat.sub_0_r in Hx. subst li.
-  pose proof (select_poll_k s (l_info x) d sel (calls s) HK eq_refl) as (T1 & T2 & T3 & T4 & _).
+  assert (HTd : T < d) by (pose proof (k_lc s HK i x Hx) as Hk0; rewrite Hp in Hk0; exact Hk0).
+  pose proof (select_poll_k s (l_info x) d sel (calls s) HK eq_refl HTd) as (T1 & T2 & T3 & T4 & _).
   match goal with |- K (fst (apply_adv ?s0 ?i0 ?aa)) => pose proof (K_apply s i aa x (length (calls s)) HC HK Hx) as G end.
   rewrite set_status_oob in G by lia. rewrite with_calls_same in G.
   apply G; auto.
@@ -275,7 +283,7 @@ Definition shape_kgoal (s : sys) (cid : nat) (sh : lres) : Prop :=
   | LKeep p' new _ cn => k_ok (nd s) (cancel_calls cn (set_status cid Delivered (calls s)) ++ mk_calls new) (next_att (pl s)) (now s) p'
   | LResolve r p' new cn =>
       k_ok (nd s) (cancel_calls cn (set_status cid Delivered (calls s)) ++ mk_calls new) (next_att (pl s)) (now s) p' /\ exists pr, r = Resolve pr
-  | LSelect d => d <> 0
+  | LSelect d => d <> 0 /\ T < now s + d
   end.
 
 Lemma st_of_tbl_new cs cid cn q rest : st_of (cancel_calls cn (set_status cid Delivered cs) ++ mk_calls (q :: rest)) (length cs) = Some Unprocessed.
@@ -290,7 +298,7 @@ Proof.
   intros HU HC HO HN HK Hx Hcl Hrep Hsh.
   assert (Hst : st_of (calls s) cid = Some (Replied y)) by (rewrite (st_of_nth _ _ _ Hcl), Hrep; reflexivity).
   pose proof (ni_lc true s HN i x Hx) as Hlc. pose proof (ic_typed c s HC i x Hx) as Hty. pose proof (ni_r true s HN cid cl y Hcl Hrep) as Hry.
-  pose proof (k_lc s HK i x Hx) as Hk.
+  pose proof (k_lc s HK i x Hx) as Hk. pose proof (k_now s HK) as Hnow.
   unfold typed_reply in Hry.
   assert (NN : forall w, attached (l_pc x) = true -> (forall k a g, l_pc x <> PPay k a g) -> no_new (wproj (nd s) (calls s) w))
     by (intros w Ax Hnp; exact (no_new_of true c s i x w HU HC HO HN Hx Ax Hnp)).
@@ -301,11 +309,11 @@ Proof.
   - (* PFetch *)
     rewrite (has_call_rpc _ _ _ _ Hty Hcl) in Hry. destruct Hry as (v & -> & Hng).
     destruct v as [[[|a t|pr|] g]|]; inversion Hsh; subst sh; cbn [shape_kgoal k_ok].
-    + exact mpp_pos.
+    + split; [exact mpp_pos|lia].
     + exact (Hk a t g Hst).
     + split; [exact I|eauto].
     + exfalso. exact (Hng g eq_refl).
-    + exact mpp_pos.
+    + split; [exact mpp_pos|lia].
   - (* PWait *)
     destruct kk as [a g t|a g]; [|destruct Hk].
     destruct Hlc as (Hw & _).
@@ -363,23 +371,23 @@ Proof.
   - destruct sh as [p' new out cancel|r p' new cancel|d]; cbn [adv_of a_cancel].
     + exact (proj2 (lc_shape_awaits _ _ _ _ _ _ _ _ _ _ Hsh eq_refl)).
     + unfold do_resolve. destruct (entry_ (pl s)); cbn [a_cancel]; exact (proj2 (lc_shape_awaits _ _ _ _ _ _ _ _ _ _ Hsh eq_refl)).
-    + cbn [shape_kgoal] in Hg. rewrite (enter_select_nz _ _ _ _ _ _ _ _ Hg).
-      rewrite (proj1 (select_poll_k s (l_info x) (now s + d) sel _ HK Hlen)). intros k [].
+    + cbn [shape_kgoal] in Hg. rewrite (enter_select_nz _ _ _ _ _ _ _ _ (proj1 Hg)).
+      rewrite (proj1 (select_poll_k s (l_info x) (now s + d) sel _ HK Hlen (proj2 Hg))). intros k [].
   - destruct sh as [p' new out cancel|r p' new cancel|d]; cbn [adv_of a_att].
     + lia.
     + unfold do_resolve. destruct (entry_ (pl s)); cbn [a_att]; lia.
-    + cbn [shape_kgoal] in Hg. rewrite (enter_select_nz _ _ _ _ _ _ _ _ Hg).
-      exact (proj1 (proj2 (select_poll_k s (l_info x) (now s + d) sel _ HK Hlen))).
+    + cbn [shape_kgoal] in Hg. rewrite (enter_select_nz _ _ _ _ _ _ _ _ (proj1 Hg)).
+      exact (proj1 (proj2 (select_poll_k s (l_info x) (now s + d) sel _ HK Hlen (proj2 Hg)))).
   - destruct sh as [p' new out cancel|r p' new cancel|d]; cbn [adv_of a_entry].
     + exact (k_entry s HK).
     + unfold do_resolve. destruct (entry_ (pl s)); cbn [a_entry]; intros en0 H0; discriminate.
-    + cbn [shape_kgoal] in Hg. rewrite (enter_select_nz _ _ _ _ _ _ _ _ Hg).
-      exact (proj1 (proj2 (proj2 (select_poll_k s (l_info x) (now s + d) sel _ HK Hlen)))).
+    + cbn [shape_kgoal] in Hg. rewrite (enter_select_nz _ _ _ _ _ _ _ _ (proj1 Hg)).
+      exact (proj1 (proj2 (proj2 (select_poll_k s (l_info x) (now s + d) sel _ HK Hlen (proj2 Hg))))).
   - destruct sh as [p' new out cancel|r p' new cancel|d]; cbn [adv_of a_pc a_new a_cancel a_att]; cbn [shape_kgoal] in Hg.
     + exact Hg.
     + unfold do_resolve. destruct (entry_ (pl s)); cbn [a_pc a_new a_cancel a_att k_ok]; [exact (proj1 Hg)|exact I].
-    + rewrite (enter_select_nz _ _ _ _ _ _ _ _ Hg).
-      exact (proj1 (proj2 (proj2 (proj2 (select_poll_k s (l_info x) (now s + d) sel _ HK Hlen))))).
+    + rewrite (enter_select_nz _ _ _ _ _ _ _ _ (proj1 Hg)).
+      exact (proj1 (proj2 (proj2 (proj2 (select_poll_k s (l_info x) (now s + d) sel _ HK Hlen (proj2 Hg)))))).
 Qed.
 
 (* ---------- EvProcess ---------- *)
@@ -434,6 +442,7 @@ Proof.
     + rewrite Hx in Hz. inversion Hz; subst z. exact Hown.
     + apply (k_ok_ext (nd s) n' (calls s) _ (next_att (pl s)) (next_att (pl s))); auto; [intros pr; rewrite Hp; auto|lia| |exact (k_lc s HK j z Hz)].
       intros k Hk. apply nth_set_status_other. intros <-. exact (Hdj i j x z cid (not_eq_sym Hne) Hx Hz Hin Hk).
+  - exact (k_now s HK).
 Qed.
 
 Lemma K_process s cid : InvU s -> InvC c s -> InvO s -> NInv true s -> K s -> K (fst (step c s (EvProcess cid NoFault))).
@@ -453,7 +462,7 @@ Proof.
   (* a write by the attached lifecycle: every other lifecycle is detached and knows nothing about the record *)
   assert (WA : forall n1 st', attached (l_pc x) = true -> parts n1 = parts (nd s) ->
             (forall a, mem_att a (atts n1) = true -> a < next_att (pl s)) ->
-            (forall a t g, ds n1 = Some (DPending a t, g) -> a < next_att (pl s) /\ now s - t < mpp_ms c) ->
+            (forall a t g, ds n1 = Some (DPending a t, g) -> a < next_att (pl s) /\ T - t < mpp_ms c) ->
             k_ok n1 (set_status cid st' (calls s)) (next_att (pl s)) (now s) (l_pc x) ->
             K {| nd := n1; pl := pl s; calls := set_status cid st' (calls s); now := now s; height := height s |}).
   { intros n1 st' Ax Hp1 Ha1 Hd1 Hown. constructor; cbn [nd pl calls now]; auto.
@@ -461,7 +470,8 @@ Proof.
     - intros j z Hz. destruct (Nat.eq_dec j i) as [->|Hne].
       + rewrite Hx in Hz. inversion Hz; subst z. exact Hown.
       + apply (k_ok_detached (nd s) n1 (calls s) _ (next_att (pl s)) (next_att (pl s)) (now s) (now s)); [|intros pr; rewrite Hp1; auto|exact (k_lc s HK j z Hz)].
-        destruct (attached (l_pc z)) eqn:Az; [|reflexivity]. exfalso. apply Hne. exact (proj1 (att_unique s j i z x HU Hz Hx Az Ax)). }
+        destruct (attached (l_pc z)) eqn:Az; [|reflexivity]. exfalso. apply Hne. exact (proj1 (att_unique s j i z x HU Hz Hx Az Ax)).
+    - exact (k_now s HK). }
   destruct (c_rpc cl) as [|m gen v|m a cm su am b| | |pid|b am mf md rt] eqn:Hq.
   - (* listdatastore *)
     cbn [owner_shape] in Hs. unfold node_exec in Hex. inversion Hex; subst n' y.
@@ -481,7 +491,7 @@ Proof.
         - intros y0 Hy0. rewrite StN in Hy0. inversion Hy0. eauto.
         - intros cl' m' gg' a' t' Hk' Hr'. rewrite (nth_set_status_same _ _ _ _ Hcl) in Hk'. inversion Hk'; subst cl'. cbn [c_rpc] in Hr'.
           exact (R4 cl m' gg' a' t' Hcl Hr'). }
-      assert (Age : now s - t < mpp_ms c) by exact (R4 cl _ _ _ _ Hcl Hq).
+      assert (Age : T - t < mpp_ms c) by exact (R4 cl _ _ _ _ Hcl Hq).
       unfold node_exec in Hex. destruct (ds (nd s)) as [[v0 cur]|] eqn:Eds; inversion Hex; subst n' y.
       * apply WA; [rewrite Hp; reflexivity|reflexivity|exact (k_atts s HK)| |rewrite Hp; apply Own; reflexivity].
         cbn [set_ds ds]. intros a1 t1 g1 H. inversion H; subst. auto.
@@ -495,7 +505,8 @@ Proof.
         - intros ? ? ? H. discriminate.
         - intros j z Hz. destruct (Nat.eq_dec j i) as [->|Hne].
           + rewrite Hx in Hz. inversion Hz; subst z. rewrite Hp. cbn [k_ok set_ds parts]. exact Hk.
-          + apply (k_ok_ds_done (nd s) _ (calls s) _ _ _ _ pr Hk (ni_lc true s HN j z Hz) (Oth st' j z Hne Hz) (k_lc s HK j z Hz)). }
+          + apply (k_ok_ds_done (nd s) _ (calls s) _ _ _ _ pr Hk (ni_lc true s HN j z Hz) (Oth st' j z Hne Hz) (k_lc s HK j z Hz)).
+        - exact (k_now s HK). }
       unfold node_exec in Hex. destruct (ds (nd s)) as [[v0 cur]|] eqn:Eds; inversion Hex; subst n' y; apply G.
     + destruct Hs.
   - (* a write of an attempt record *)
@@ -546,6 +557,7 @@ Proof.
   - rewrite Ha. exact (k_atts s HK).
   - rewrite Hd. exact (k_ds s HK).
   - intros i x Hx. apply (k_ok_ext (nd s) n1 (calls s) (calls s) (next_att (pl s)) (next_att (pl s))); auto; [rewrite Ha; reflexivity|lia|exact (k_lc s HK i x Hx)].
+  - exact (k_now s HK).
 Qed.
 
 Lemma K_part s pid st : K s -> K (fst (step c s (EvPart pid st))).
@@ -576,13 +588,28 @@ Proof.
   - exact (k_atts s HK).
   - exact (k_ds s HK).
   - intros [|i] x H; discriminate.
+  - exact (k_now s HK).
 Qed.
 
 Lemma K_height s h : K s -> K (fst (step c s (EvHeight h))).
-Proof. intros [A1 A2 A3 A4]. cbn [step fst]. constructor; cbn [nd pl calls now]; assumption. Qed.
+Proof. intros [A1 A2 A3 A4 A5]. cbn [step fst]. constructor; cbn [nd pl calls now]; assumption. Qed.
+
+Lemma K_silent s dt : K s -> now s + dt <= T ->
+  fire_timers (lcs (pl s)) (entry_ (pl s)) (now s + dt) = (lcs (pl s), entry_ (pl s), []).
+Proof.
+  intros HK Hle. apply fire_timers_silent. intros i x dl Hx Hp. pose proof (k_lc s HK i x Hx) as Hk. rewrite Hp in Hk. cbn [k_ok] in Hk. lia.
+Qed.
+
+(* time passes, no deadline is reached: only the clock changes *)
+Lemma K_tick s dt : K s -> now s + dt <= T -> K (fst (step c s (EvTick dt))).
+Proof.
+  intros HK Hle. cbn [step]. rewrite (K_silent s dt HK Hle). cbn [fst].
+  destruct HK as [A1 A2 A3 A4 A5]. constructor; cbn [nd pl entry_ lcs calls next_att now]; try assumption.
+  - lia.
+Qed.
 
 (* ---------- every cooperative step keeps K and fails nobody ---------- *)
-Theorem K_step s ev : wreach true c s -> K s -> ev_coop ev -> K (fst (step c s ev)).
+Theorem K_step s ev : wreach true c s -> K s -> ev_coop s ev -> K (fst (step c s ev)).
 Proof.
   intros Hw HK Hev. destruct (wreach_inv true c s Hw) as (_ & HC & HO & HN). pose proof (wreach_U true c s Hw) as HU.
   destruct ev as [h|sel|cid f|cid sel|pid st|cid|cid o|dt|h|]; cbn [ev_coop] in Hev.
@@ -593,7 +620,7 @@ Proof.
   - exact (K_part s pid st HK).
   - exact (K_newpart s cid HK).
   - destruct Hev as (p & ->). exact (K_payfinish s cid p HC HO HK).
-  - destruct Hev.
+  - exact (K_tick s dt HK Hev).
   - exact (K_height s h HK).
   - exact (K_crash s HK).
 Qed.
@@ -608,14 +635,16 @@ Proof.
 Qed.
 
 Theorem coop_step_only_settles s ev h r :
-  wreach true c s -> K s -> ev_coop ev -> In (OResp h r) (snd (step c s ev)) -> exists pr, r = Resolve pr.
+  wreach true c s -> K s -> ev_coop s ev -> In (OResp h r) (snd (step c s ev)) -> exists pr, r = Resolve pr.
 Proof.
   intros Hw HK Hev Hin. destruct (wreach_inv true c s Hw) as (_ & HC & HO & HN). pose proof (wreach_U true c s Hw) as HU.
   destruct ev as [h0|sel|cid f|cid sel|pid st|cid|cid o|dt|h0|]; cbn [ev_coop] in Hev; cbn [step] in Hin; try (destruct Hin; fail).
   - destruct (entry_ (pl s)) as [e|] eqn:He; [destruct Hin|destruct Hin as [Hin|[]]; discriminate].
   - destruct (find_select 0 (lcs (pl s))) as [[[i d] li]|] eqn:Hf; [|destruct Hin].
     apply apply_adv_resp_in in Hin.
-    exfalso. exact (proj2 (proj2 (proj2 (proj2 (select_poll_k s li d sel (calls s) HK eq_refl)))) h r Hin).
+    destruct (find_select_spec _ _ _ _ _ Hf) as (x & Hx & Hp & _ & _). rewrite Nat.sub_0_r in Hx.
+    assert (HTd : T < d) by (pose proof (k_lc s HK i x Hx) as Hk0; rewrite Hp in Hk0; exact Hk0).
+    exfalso. exact (proj2 (proj2 (proj2 (proj2 (select_poll_k s li d sel (calls s) HK eq_refl HTd)))) h r Hin).
   - destruct (nth_error (calls s) cid) as [cl|]; [|destruct Hin]. destruct (c_st cl); try (destruct Hin; fail).
     destruct (node_exec (nd s) (c_rpc cl) f). destruct Hin.
   - destruct (nth_error (calls s) cid) as [cl|] eqn:Hcl; [|destruct Hin]. destruct (c_st cl) eqn:Hst; try (destruct Hin; fail).
@@ -631,27 +660,30 @@ Proof.
     + unfold do_resolve in Hin. destruct (entry_ (pl s)) as [en|]; cbn [a_out] in Hin; [|destruct Hin as [H|[]]; discriminate].
       rewrite app_nil_r in Hin. unfold resolve_outs in Hin. apply in_map_iff in Hin as (h1 & Hh1 & _). inversion Hh1; subst r0.
       exact (proj2 Hg).
-    + exfalso. rewrite (enter_select_nz _ _ _ _ _ _ _ _ Hg) in Hin.
-      exact (proj2 (proj2 (proj2 (proj2 (select_poll_k s (l_info x) (now s + d) sel (calls s) HK eq_refl)))) h r Hin).
+    + exfalso. rewrite (enter_select_nz _ _ _ _ _ _ _ _ (proj1 Hg)) in Hin.
+      exact (proj2 (proj2 (proj2 (proj2 (select_poll_k s (l_info x) (now s + d) sel (calls s) HK eq_refl (proj2 Hg))))) h r Hin).
   - destruct (nth_error (parts (nd s)) pid) as [[]|], st; destruct Hin.
   - destruct (nth_error (calls s) cid) as [[q st]|]; [|destruct Hin]. destruct q; try (destruct Hin; fail). destruct st; destruct Hin.
   - destruct (nth_error (calls s) cid) as [[q st]|]; [|destruct Hin]. destruct q; try (destruct Hin; fail). destruct st; destruct Hin.
-  - destruct Hev.
+  - rewrite (K_silent s dt HK Hev) in Hin. destruct Hin.
 Qed.
 
 Theorem coop_step_never_fails s ev h m :
-  wreach true c s -> K s -> ev_coop ev -> ~ In (OResp h (Fail m)) (snd (step c s ev)).
+  wreach true c s -> K s -> ev_coop s ev -> ~ In (OResp h (Fail m)) (snd (step c s ev)).
 Proof. intros Hw HK Hev Hin. destruct (coop_step_only_settles s ev h (Fail m) Hw HK Hev Hin) as (pr & H). discriminate. Qed.
 
 (* ---------- every cooperative history ---------- *)
+Fixpoint hist_coop (s : sys) (evs : list event) : Prop :=
+  match evs with [] => True | ev :: r => ev_coop s ev /\ hist_coop (fst (step c s ev)) r end.
+
 Lemma coop_run_inv : forall evs s,
-  wreach true c s -> K s -> hist_wf true c s evs -> Forall ev_coop evs ->
+  wreach true c s -> K s -> hist_wf true c s evs -> hist_coop s evs ->
   (wreach true c (fst (run c s evs)) /\ K (fst (run c s evs))) /\
   forall o h r, In o (snd (run c s evs)) -> In (OResp h r) o -> exists pr, r = Resolve pr.
 Proof.
   induction evs as [|ev r IH]; intros s Hw HK Hwf Hco; cbn [run].
   - split; [split; assumption|]. intros o h r0 [].
-  - destruct Hwf as (H1 & H2). inversion Hco as [|? ? Hc1 Hc2]; subst.
+  - destruct Hwf as (H1 & H2). destruct Hco as (Hc1 & Hc2).
     pose proof (wr_step true c s ev Hw H1) as Hw1. pose proof (K_step s ev Hw HK Hc1) as HK1.
     pose proof (coop_step_only_settles s ev) as NF.
     destruct (step c s ev) as [s1 o1] eqn:Est. cbn [fst snd] in *.
@@ -662,23 +694,25 @@ Qed.
 Theorem coop_runs_never_fail n t0 h0 a0 evs :
   node_ok n ->
   (forall a, mem_att a (atts n) = true -> a < a0) ->
-  (forall a t g, ds n = Some (DPending a t, g) -> a < a0 /\ t0 - t < mpp_ms c) ->
-  hist_wf true c (sys_start n t0 h0 a0) evs -> Forall ev_coop evs ->
+  (forall a t g, ds n = Some (DPending a t, g) -> a < a0 /\ T - t < mpp_ms c) ->
+  t0 <= T -> T - t0 < mpp_ms c ->
+  hist_wf true c (sys_start n t0 h0 a0) evs -> hist_coop (sys_start n t0 h0 a0) evs ->
   forall o h m, In o (snd (run c (sys_start n t0 h0 a0) evs)) -> ~ In (OResp h (Fail m)) o.
 Proof.
-  intros Hn Ha Hd Hwf Hco o h m Ho Hin.
-  destruct (proj2 (coop_run_inv evs _ (wr_start true c n t0 h0 a0 Hn) (K_start n t0 h0 a0 Ha Hd) Hwf Hco) o h (Fail m) Ho Hin) as (pr & H). discriminate.
+  intros Hn Ha Hd Ht1 Ht2 Hwf Hco o h m Ho Hin.
+  destruct (proj2 (coop_run_inv evs _ (wr_start true c n t0 h0 a0 Hn) (K_start n t0 h0 a0 Ha Hd Ht1 Ht2) Hwf Hco) o h (Fail m) Ho Hin) as (pr & H). discriminate.
 Qed.
 
 Theorem coop_runs_only_settle n t0 h0 a0 evs :
   node_ok n ->
   (forall a, mem_att a (atts n) = true -> a < a0) ->
-  (forall a t g, ds n = Some (DPending a t, g) -> a < a0 /\ t0 - t < mpp_ms c) ->
-  hist_wf true c (sys_start n t0 h0 a0) evs -> Forall ev_coop evs ->
+  (forall a t g, ds n = Some (DPending a t, g) -> a < a0 /\ T - t < mpp_ms c) ->
+  t0 <= T -> T - t0 < mpp_ms c ->
+  hist_wf true c (sys_start n t0 h0 a0) evs -> hist_coop (sys_start n t0 h0 a0) evs ->
   forall o h r, In o (snd (run c (sys_start n t0 h0 a0) evs)) -> In (OResp h r) o -> exists pr, r = Resolve pr.
 Proof.
-  intros Hn Ha Hd Hwf Hco.
-  exact (proj2 (coop_run_inv evs _ (wr_start true c n t0 h0 a0 Hn) (K_start n t0 h0 a0 Ha Hd) Hwf Hco)).
+  intros Hn Ha Hd Ht1 Ht2 Hwf Hco.
+  exact (proj2 (coop_run_inv evs _ (wr_start true c n t0 h0 a0 Hn) (K_start n t0 h0 a0 Ha Hd Ht1 Ht2) Hwf Hco)).
 Qed.
 
 End Coop.
